@@ -17,7 +17,8 @@ PID = "C12"
 RULE = ("generated multi-document Sphinx projects (directory depth 0-3, .md and .rst documents, index documents in "
         "sub-directories, names with non-ASCII letters and spaces, up to three equal heading titles, (label)= targets on "
         "headings and paragraphs incl. case variants beyond ASCII, extra non-document files, files pulled in by {include} with "
-        ":relative-docs:) built in-process with the html or the dirhtml builder; every link spelling (x.md, ./, ../, "
+        ":relative-docs: up to two levels deep; configuration axis all_links_external / commonmark_only / url_schemes / "
+        "ref_domains / nitpick_ignore) built in-process with the html or the dirhtml builder; every link spelling (x.md, ./, ../, "
         "non-minimal ../d/, leading /, without extension (+#anchor), project:, path:, #label, explicit text with nested "
         "markup vs empty text, missing documents/anchors/labels/files, %00, over-long, quirk spellings). correspondence: "
         "extracted Coq model (run_link) vs the reference node of the resolved doctree + the warning stream, per link; plus the "
@@ -79,8 +80,13 @@ ORACLES = {
                  "newnode.append(contnode) in the code). In the generated projects those sources return nothing, so the premises hold "
                  "vacuously there; what is exercised on every link with explicit text is the conclusion (nested markup of the link "
                  "text found unchanged in doctree and HTML: corr text signature, search link:*:text)",
-    "O_include": "MockIncludeDirective sets md_env['relative-docs'] = (prefix, dir of the including source, dir of the included "
-                 "file): exercised by every link of a generated fragment",
+    "O_include": "MockIncludeDirective sets md_env['relative-docs'] = (prefix, directory of the OUTERMOST document, directory of the "
+                 "included file) around the nested render and restores the previous entries afterwards (include_env_src, proved); that "
+                 "include_log[0] is the outermost document and that the nested render runs with this md_env is exercised by every link "
+                 "of a generated fragment (one and two levels, links before / inside / after a nested include)",
+    "O_registries": "premise of the pipeline theorems: the explicit-name table that ResolveAnchorIds builds from the document's "
+                    "registries (build_explicit rg) is the document's table of (label)= targets (ex_of d); exercised through the "
+                    "label tables of the env check and every '#label' link",
 }
 ASSUMPTIONS = ["configuration: myst_heading_anchors=3; axis generated and modelled: myst_all_links_external, myst_commonmark_only, "
                "myst_url_schemes (extra schemes, also 'project'), myst_ref_domains; myst_gfm_only is modelled (plain_url_mode) but not "
@@ -1515,20 +1521,48 @@ def replay(ctx, data):
     return 0 if ok else 1
 
 
-LEVEL_TEXT = ("Proof (Coq) about a hand-written model of the link classifier (render_link, render_link_project/_path/_unknown, "
-              "_handle_relative_docs), ResolveAnchorIds' forwarding and MystReferenceResolver, over transcriptions of "
-              "posixpath.normpath/join/relpath, pathlib parsing, Sphinx relfn2path/path2doc/docname_join/relative_uri and "
-              "get_target_uri of the html and dirhtml builders: relative_uri round-trips for all page-URI paths of both builders "
-              "(any directory depth, index documents); every listed spelling of a path normalises to the intended file/docname "
-              "(also docname#anchor); a destination inside an {include}d file is rewritten to a spelling of the same file; "
-              "doc.md#slug is looked up in the target document's slug table, a miss gives one warning, the fallback id and a "
-              "fallback text; explicit text is kept, otherwise the target's title; exactly one xref_missing iff the destination is "
-              "unresolved, on every route. Premises shown necessary by _refuted witnesses. Tied to the code by per-link "
-              "differential correspondence on generated multi-document Sphinx projects, exhaustive small-input correspondence "
-              "of the library functions, and a direct intent-based oracle on the written HTML.")
-LEVEL_NOTE = ("Partial: the Sphinx environment (all_docs, titles, myst_slugs, std labels), the file system, other domains and "
-              "intersphinx are oracle hypotheses (O_sphinx_env etc.), each exercised on every generated project; the model is a "
-              "transcription checked by correspondence, not proved equal to the Python code; default configuration only. "
-              "No open finding (seven repaired: 4baaac6, 30d027a, 5310f28, 3257367, 9a2ab65, 8272e06, b916a8c). Since round 3/4 the "
-              "classifier, the resolver incl. MystReferenceResolver.run, the include bookkeeping and (imported from C09) "
-              "ResolveAnchorIds.apply are regenerated from the source and proved equal to the model (pipeline_src).")
+LEVEL_TEXT = ("Machine-checked proof (Coq 8.16, 37 theorems in coq/Props/C12.v, all closed under the global context, coqchk in the "
+              "thorough tier) about an executable Gallina model of MyST's Sphinx link path, and a tie of that model to the code by "
+              "regenerating it from the source. PROVED IN FULL (no bound on depth or length): (a) C12_relative_uri_roundtrip / "
+              "C12_builder_uri_roundtrip - resolving the relative URI computed for a link against the referencing page gives the "
+              "target page, for every pair of documents at any directory depth, html and dirhtml builders, index documents "
+              "included; (b) C12_path_spellings(+_path2doc, _docname, _docname_anchor) - every spelling of a file or docname "
+              "(x.md, ./, ../ up to any common ancestor, leading /, without extension, with #anchor, project:, path:) written in a "
+              "document of any directory normalises to the intended file and is classified as intended; (c) C12_relative_docs_rewrite "
+              "/ _same_target and C12_include_* - a destination inside an {include}d file (any nesting) is rewritten to a spelling "
+              "of the same file relative to the outermost document, and md_env is restored after every include; (d) "
+              "C12_anchor_lookup - doc#slug is looked up in the TARGET document's slug table, a miss gives one warning, the fallback "
+              "id and a fallback text; (e) C12_text_explicit / C12_text_title_* - explicit text (nested markup) is kept on every "
+              "route, otherwise the title of the document / section / labelled section; (f) C12_missing_at_most_once, "
+              "C12_missing_once - exactly one myst.xref_missing iff the destination is unresolved, on every route of the "
+              "classifier, zero otherwise; (g) C12_plain_url_modes - under commonmark_only / gfm_only / all_links_external every "
+              "link is a plain external URL. The premises of (a) and (b) are shown necessary by _refuted witnesses. TIE: "
+              "gen/c12_src.py regenerates on every run, statement by statement and fail-closed, _abs_path, _handle_relative_docs, "
+              "render_link_project/_path/_unknown, render_link, _resolve_ref_nested, _resolve_doc_nested, resolve_myst_ref_any, "
+              "resolve_myst_ref_doc, MystReferenceResolver.run and the include bookkeeping of MockIncludeDirective.run; "
+              "ResolveAnchorIds.apply comes regenerated from the C09 builder. C12_src_refines_model, C12_run_src, "
+              "C12_include_restores_src and C12_pipeline_src_eq prove the regenerated definitions EQUAL to the model, and "
+              "C12_path_spellings_src, C12_anchor_lookup_src, C12_relative_docs_rewrite_src, C12_missing_once_src, "
+              "C12_text_explicit_pipeline, C12_missing_once_pipeline restate the property theorems for the regenerated code from "
+              "render_link to the resolved node: a one-token edit of these functions breaks gen or a proof (discharged=0). In "
+              "addition: per-link differential correspondence of the extracted model with in-process Sphinx builds of generated "
+              "multi-document projects, exhaustive small-input correspondence of the modelled library functions, and a direct "
+              "intent-based oracle on the written HTML (href resolved against the output tree, link text, warnings).")
+LEVEL_NOTE = ("Partial where the property leaves MyST's code: the Sphinx environment (all_docs/found_docs, titles, myst_slugs, std "
+              "labels: O_sphinx_env; the registries' explicit-name table: O_registries), the builders' get_target_uri, the file "
+              "system, other std object types / other domains / intersphinx (universally quantified functions with O_contnode_*) and "
+              "posixpath / pathlib / Sphinx path functions are oracle hypotheses - each transcribed, and compared with the real "
+              "library on every run (exhaustively on small inputs), not verified. Remaining premises of the theorems: "
+              "plain_url_mode P = false for the classifier theorems (C12_plain_url_modes covers the other case); names of files and "
+              "directories are 'name_ok' (not empty, not '.'/'..', no '/', '#', ':', NUL, not a lone backslash) and the docname "
+              "found by path2doc is non-empty (dn <> []: Python's `if docname:`); titles / section names non-empty for the "
+              "title theorems; nitpick_ignore empty for the exact warning count (an ignored target gives no warning by design; "
+              "C12_missing_at_most_once holds without it); one-to-one reading of quote/normalizeLink on generated names. Trusted: the "
+              "Python-idiom -> Gallina mapping of the translator (listed in TRUSTED, vocabulary coq/XRef/XRefSrcBase.v) and the C09 "
+              "builder's translation of ResolveAnchorIds. Configuration: html and dirhtml builders; myst_all_links_external, "
+              "myst_commonmark_only, myst_url_schemes, myst_ref_domains, nitpick_ignore exercised; myst_gfm_only modelled only "
+              "(linkify-it-py is not installed). No open finding. Seven defects found by this check were repaired in /repo "
+              "(baseline green, tests unedited) and are re-run as regression witnesses on every search: 4baaac6 (over-long path: "
+              "OSError), 30d027a (path: to a missing file gave no xref_missing), 5310f28 (docname#anchor never resolved), 3257367 "
+              "(unresolved document link without text rendered nothing), 9a2ab65 (NUL in a destination: ValueError), 8272e06 and "
+              "b916a8c (nested {include}: outer relative-docs lost / wrong base directory).")
